@@ -399,3 +399,13 @@ def from_z3(e, sort):
     if isinstance(sort, SET):
         return VSet(sort.key, e)
     return e
+
+
+def forall_pat(vs, body, patterns=None):
+    """ForAll with explicit patterns when z3 accepts them (terms containing lambdas are not valid patterns), else without"""
+    if patterns:
+        try:
+            return z3.ForAll(vs, body, patterns=patterns)
+        except z3.Z3Exception:
+            pass
+    return z3.ForAll(vs, body)
